@@ -43,7 +43,12 @@ func VerifTransformRequest() {
 	}
 	switch profile {
 	case 1:
+		// present-but-zero is a value of its own (seed C12e: a helper treating 0 as "not set")
+		zero := gosym.Choice("zero_sampling", 2) == 1
 		v, p := 0.5, 0.9
+		if zero {
+			v, p = 0, 0
+		}
 		req.Temperature, req.TopP = &v, &p
 		req.StopSequences = []string{"END", gosym.String("stopseq", 1)}
 		// more stop sequences than OpenAI's documented four are still the client's to send
